@@ -63,6 +63,8 @@ def build(desc, poly=False):
     ocp.set_value(master.pb, 2.25)
 
     def hv(k):
+        if k[0] == 'param':
+            return 1.0            # placeholder number: declare() assigns the parameter through set_T / set_t0
         return FreeTime(float(k[1])) if k[0] == 'free' else float(k[1])
     from rockit import Stage
     for si, sd in enumerate(desc['stages']):
@@ -92,6 +94,9 @@ def build(desc, poly=False):
             st = ocp.stage(t0=hv(sd['t0']), T=hv(sd['T']))
             b = declare(spec, sd['cfg'], poly=poly, ocp=ocp, stage=st)
             b.spec = spec
+        if sd.get('post_der_scale') is not None:
+            # AFTER the stage exists: its dynamics are given again, now with a derivative scale (its siblings keep theirs)
+            st.set_der(b.xs[0], b.xel[1] * 2 - b.us[0], scale=float(sd['post_der_scale']))      # (time-invariant: the template's symbols serve every stage made from it)
         master.stage_builts.append(b)
     B = master.stage_builts
     for c in desc['coupling']:
@@ -181,6 +186,17 @@ def instances(tier, seed):
     for ci_ in (0, 1):
         add(kind='clone-vs-direct', desc=dict(stages=[dict(spec=tpl_inf, cfg=cfgs[[0, 3][ci_]], t0=hz[[0, 2][ci_]][0], T=hz[[0, 2][ci_]][1], clone_of='tpl', pvals={}),
                                                       dict(spec=stage_model(1), cfg=cfgs[1], t0=hz[2][0], T=hz[2][1], clone_of=None)], coupling=[('cont', 0, 1), ('wge', 0)], parent=[('w2',)]))
+    # two stages from one template under DirectCollocation; AFTER cloning, one of them gets set_der(..., scale=10) (siblings are independent)
+    tpl_s = stage_model(0)
+    add(kind='clone-vs-direct', desc=dict(stages=[dict(spec=tpl_s, cfg=cfgs[1], t0=hz[0][0], T=hz[0][1], clone_of='tpl', pvals={}),
+                                                  dict(spec=tpl_s, cfg=cfgs[1], t0=hz[2][0], T=hz[2][1], clone_of='tpl', pvals={}, post_der_scale=Fr(10))],
+                                          coupling=[('cont', 0, 1), ('wge', 1)], parent=[('w2',)]))
+    # a template whose horizon length is a PARAMETER, on a FreeGrid; every clone carries its own value (and its own window)
+    tpl_p = fam.with_horizon(stage_model(0), (('num', Fr(0)), ('param', 'pT')))
+    cfg_free = Cfg('MS', N=2, M=1, intg='rk', grid=fam.G_FREE)
+    add(kind='clone-vs-direct', desc=dict(stages=[dict(spec=tpl_p, cfg=cfg_free, t0=('num', Fr(i_)), T=('param', 'pT'), clone_of='tplp', override=('t0',), tpl_h=(('num', Fr(0)), ('param', 'pT')),
+                                                       pvals={'pT': Fr(1 + i_), 'a': Fr(5 + 2 * i_, 4)}) for i_ in range(2)],
+                                          coupling=[('cont', 0, 1), ('wge', 1)], parent=[('w2',)]))
     # seeded random stage contents (model, constraint set, objective, guesses): direct and cloned
     from .. import randspec
     rr = random.Random(seed * 7919 + 1212)
